@@ -5,7 +5,7 @@
 From Coq Require Import List ZArith QArith Bool.
 Import ListNotations.
 Require Import QV.C09.Model QV.C09.Corr QV.C09.Proofs QV.C09.Proofs2 QV.C09.Proofs3 QV.C09.Proofs4 QV.C09.Proofs5 QV.C09.Proofs6
-               QV.C09.Proofs6x QV.C09.Proofs7 QV.C09.Proofs7x QV.C09.Proofs8 QV.C09.ProofsR QV.C09.ProofsE QV.C09.ProofsF QV.C09.Proofs9 QV.C09.Proofs10.
+               QV.C09.Proofs6x QV.C09.Proofs7 QV.C09.Proofs7x QV.C09.Proofs8 QV.C09.ProofsR QV.C09.ProofsE QV.C09.ProofsF QV.C09.Proofs9 QV.C09.Proofs10 QV.C09.ProofsN.
 
 (* every freshly constructed tree (Loop(...) with nested children, any counts / waveforms / measurements) satisfies Inv *)
 Theorem C09_init : forall t, sInv (init_state t).
@@ -274,6 +274,36 @@ Definition C09_forest_statement : Prop := forall ops fs,
 Example C09_forest_guard_nonvacuous :
   forallb guard_C09_forest [FHold [0%nat]; FMain (OMerge []); FAt 0 (OReverse []); FHoldCopy None [] 0 []] = true.
 Proof. reflexivity. Qed.
+
+(* round 4: a call the caller survives inside try/except leaves NO state behind.  pyexn e: a Python exception, not a model
+   artefact (fuel / dangling id).  (1) x[idx] = v: the only Python exception is IndexError and then the heap is unchanged -
+   v was not re-parented (repair f8d6b25: Node.__setitem__ validates before parse_child re-parents);  (2) x[a:b:st] = vals
+   raising ValueError (step 0, size mismatch of an extended slice): heap unchanged;  (3) x.repetition_count = <float q>: the
+   only Python exception is ValueError and then nothing was stored;  (4) the same at the forest level, where the values are
+   nodes the caller HOLDS: heap, held list and root unchanged;  (5) a rejected call (OReject) does nothing. *)
+Theorem C09_failed_call_no_effect :
+  (forall x idx v h h' e, loop_setitem_int x idx v h = (h', E e) -> pyexn e -> h' = h /\ e = ExIndex) /\
+  (forall x a b st vals h h', loop_setitem_slice x a b st vals h = (h', E ExValue) -> h' = h) /\
+  (forall x q h h' e, set_repetition_count_q x q h = (h', E e) -> pyexn e -> h' = h /\ e = ExValue) /\
+  (forall fs ks b dst how fs' e, fstep fs (FInsert ks b dst how) = (fs', Raised e) ->
+     match how with IAppend => False | IInt _ => pyexn e | ISlice _ _ _ => e = ExValue end ->
+     st_heap (f_main fs') = st_heap (f_main fs) /\ f_held fs' = f_held fs /\ st_root (f_main fs') = st_root (f_main fs)) /\
+  (forall s p e s' out, step s (OReject p e) = (s', out) -> st_heap s' = st_heap s /\ st_root s' = st_root s).
+Proof.
+  split; [exact setitem_int_failed|]. split; [exact setitem_slice_failed|]. split; [exact set_repetition_count_q_failed|].
+  split; [exact finsert_failed|exact reject_no_effect].
+Qed.
+Print Assumptions C09_failed_call_no_effect.
+
+(* "a failed call has no effect" is FALSE for the recursive operations: reverse_inplace on [leaf with waveform; leaf
+   without] raises AttributeError at the second leaf after the children were reversed (the code does the same; Inv is kept:
+   C09_reverse_preserves holds for every outcome) *)
+Theorem C09_failed_call_recursive_refuted :
+  let s := init_state partial_witness in
+  let '(s', out) := step s (OReverse []) in
+  out = Raised ExAttr /\ option_map children (get (st_heap s') (st_root s')) <> option_map children (get (st_heap s) (st_root s)).
+Proof. exact reverse_partial_effect. Qed.
+Print Assumptions C09_failed_call_recursive_refuted.
 
 (* the model's own observation passes the check that is applied to the implementation's observation *)
 Definition obs_ok (s : state) : bool :=
